@@ -165,6 +165,7 @@ func clientHalf(tier string, rep *evidence.Reporter, cov *evidence.Coverage) {
 func main() {
 	var l []*explore.Scenario
 	noAtomics := uint32(1<<sched.KLock | 1<<sched.KRLock | 1<<sched.KEtcd | 1<<sched.KUser | 1<<sched.KWait | 1<<sched.KStart)
+	allButFunc := uint32(1<<(sched.KFunc+1)-1) &^ uint32(1<<sched.KFunc)
 	ads := append(tsoh.Admins(), tsoh.Handover(0), tsoh.Handover(-time.Hour), tsoh.Handover(time.Hour))
 	ads = append(ads, tsoh.Handover2(-time.Hour), tsoh.HandoverBack(0))
 	ads = append(ads, tsoh.Seq("handover-after-lost-retry", tsoh.LostRetry(), tsoh.Handover(0)))
@@ -181,14 +182,14 @@ func main() {
 		case lead:
 			// leadership changes: lease/leader atomics are scheduling points too; the
 			// clock answer is a scenario parameter in the quick tier.
-			l = append(l, scenario(ad.Name+"/clk+50ms", ad, 2, 0, "quick", false, 3, 1, 0, 50*time.Millisecond))
-			l = append(l, scenario(ad.Name+"/clk-1h", ad, 2, 0, "quick", false, 3, 1, 0, -time.Hour))
+			l = append(l, scenario(ad.Name+"/clk+50ms", ad, 2, 0, "quick", false, 3, 1, allButFunc, 50*time.Millisecond))
+			l = append(l, scenario(ad.Name+"/clk-1h", ad, 2, 0, "quick", false, 3, 1, allButFunc, -time.Hour))
 		case strings.Contains(ad.Name, "overflow"):
 			l = append(l, scenario(ad.Name, ad, 2, 0, "quick", false, 3, 1, noAtomics, 0))
 		default:
 			l = append(l, scenario(ad.Name, ad, 2, 1, "quick", false, 3, 1, noAtomics, 0))
 		}
-		l = append(l, scenario(ad.Name+"@3", ad, 3, 2, "thorough", false, 3, 2, 0, 0))
+		l = append(l, scenario(ad.Name+"@3", ad, 3, 2, "thorough", false, 3, 2, allButFunc, 0))
 	}
 	// the stored window is one hour ahead of the clock and the logical part is more than half
 	// used at every update (tso-save-interval 3 ms so that the window is reached within the
@@ -227,6 +228,10 @@ func main() {
 		}}
 	}
 	l = append(l, creep("preloaded+1h/logical-creep+handover", 1, "quick"), creep("preloaded+1h/logical-creep+handover@2", 2, "thorough"))
+	// function-call granularity (entries of server/tso, pkg/typeutil, pkg/tsoutil are scheduling
+	// points): state that is shared without a lock or an atomic
+	l = append(l, scenario("fn/none", tsoh.Admins()[0], 2, 0, "quick", false, 3, 1, 0, 50*time.Millisecond))
+	l = append(l, scenario("fn/none@2", tsoh.Admins()[0], 2, 1, "thorough", false, 3, 2, 0, 0))
 	_ = vclock.Epoch
 	explore.Main(&explore.Config{
 		Property:    "C01",
